@@ -27,7 +27,13 @@ RULE = ("history spec (3-12 revisions, merges, ghost parents) built in a 'full' 
         "only, push "
         "into it, pull into it, Repository.fetch of a chosen revision - locally "
         "or with the stacked branch opened through a smart TCP server. After "
-        "every step the invariant is evaluated. Non-trivial: the stacked "
+        "every step the invariant is evaluated; 'sink-resume' kind: the public "
+        "sink API on a stacked 2a repository - first insert_stream of one "
+        "revision (rename / add / delete against parents that live only in "
+        "the fallback) reports missing parent inventories, the write group is "
+        "resumed with an empty or a complete second stream; it must be "
+        "refused, or leave the revision delta-complete or self-sufficient. "
+        "Non-trivial: the stacked "
         "repository holds >= 1 revision one of whose parents lives only in the "
         "fallback. Distinct by case hash (DAG, split, creation mode, program).")
 ASSUMPTIONS = [
@@ -363,6 +369,163 @@ def run(case, env):
     return ok(label)
 
 
+# ---------------------------------------------------------------- sink kind
+# Directed: the public sink API with a suspended + resumed write group whose
+# second stream is empty / partial / complete.
+
+@st.composite
+def sink_case(draw, tier="quick"):
+    spec = draw(hist.history_spec(n_min=2, n_max=5, merges=True, ghosts=False,
+                                  odd_names=False, bb_safe=True, ops_max=2,
+                                  base_max=3))
+    revs = spec["revs"]
+    models = hist.models_of(spec)
+    g = hist.graph_of(spec, ghosts=False)
+    ids = [r["id"] for r in revs]
+    p = draw(st.sampled_from(ids))
+    parents = [p]
+    others = [r for r in ids if r not in gm.ancestry(g, p) and
+              p not in gm.ancestry(g, r)]
+    if others and draw(st.booleans()):
+        parents.append(draw(st.sampled_from(others)))
+    m = models[p]
+    nonroot = sorted(f for f in m if f != tm.ROOT_ID)
+    ops = []
+    if nonroot:
+        # a rename changes both CHK maps and keeps the text shared with the
+        # parent
+        f = draw(st.sampled_from(nonroot))
+        ops.append(["rename", f, tm.ROOT_ID, "zz"])
+    if draw(st.booleans()) or not ops:
+        ops.append(["add", "new-id", tm.ROOT_ID, "zn", "file",
+                    draw(tm.text_strategy()), False])
+    if len(nonroot) > 1 and draw(st.booleans()):
+        victim = [x for x in nonroot if not ops or x != ops[0][1]]
+        victim = [x for x in victim if not (
+            ops and ops[0][0] == "rename" and
+            ops[0][1] in tm.descendants(m, x))]
+        if victim:
+            ops.append(["delete", draw(st.sampled_from(victim))])
+    i = len(revs)
+    revs.append({"id": "r%d" % i, "parents": parents, "ghosts": [],
+                 "ops": ops, "msg": "m%d" % i, "ts": bz.T0 + 100 * i, "tz": 0,
+                 "committer": revs[-1]["committer"], "props": {}})
+    # ("partial" = refill only one of two missing parent inventories is not
+    # drawn: breezy accepts it by design when the texts the revision
+    # introduces are present, although one parent inventory stays absent)
+    second = draw(st.sampled_from(["empty", "empty", "full"]))
+    return {"spec": spec, "second": second}
+
+
+def run_sink(case, env):
+    from breezy import branch as _b
+    from breezy import errors
+    from breezy import repository as _r
+    from breezy.bzr import vf_search
+    from breezy.bzr.pack_repo import BzrCheckError as _FCheck
+    spec = case["spec"]
+    d = env.newdir("c08k")
+    new = spec["revs"][-1]
+    rid, parents = new["id"], new["parents"]
+    graph = hist.graph_of(spec, ghosts=False)
+    models = hist.models_of(spec)
+    full = bz.init_branch(os.path.join(d, "full"), "2a")
+    hist.build_bb(spec, full)
+    base = bz.init_branch(os.path.join(d, "base"), "2a")
+    for p in parents:
+        base.repository.fetch(full.repository, revision_id=bz.enc(p))
+    sb = bz.init_branch(os.path.join(d, "stacked"), "2a")
+    sb.set_stacked_on_url("../base")
+    repo = _b.Branch.open(os.path.join(d, "stacked")).repository
+    src_repo = full.repository
+    fmt = src_repo._format
+    outcome = None
+    with src_repo.lock_read():
+        search = vf_search.SearchResult(
+            {bz.enc(rid)}, {bz.enc(p) for p in parents}, 1, {bz.enc(rid)})
+        source = src_repo._get_source(repo._format)
+        sink = repo._get_sink()
+        tokens, missing = sink.insert_stream(source.get_stream(search), fmt, [])
+        if not missing:
+            outcome = "first-pass-complete"
+        else:
+            inv_missing = sorted(k for k in missing if k[0] == "inventories")
+            if case["second"] == "empty":
+                stream2 = iter([])
+            elif case["second"] == "partial":
+                stream2 = source.get_stream_for_missing_keys(
+                    set(inv_missing[:1]) if len(inv_missing) > 1 else set())
+            else:
+                stream2 = source.get_stream_for_missing_keys(set(missing))
+            try:
+                tokens2, missing2 = sink.insert_stream(stream2, fmt, tokens)
+            except _FCheck:
+                outcome = "refused"
+            else:
+                if missing2 or tokens2:
+                    # still suspended: give the write group up
+                    with repo.lock_write():
+                        repo.resume_write_group(tokens2)
+                        repo.abort_write_group()
+                    outcome = "still-missing"
+                else:
+                    outcome = "accepted"
+    alone = _r.Repository.open(os.path.join(d, "stacked"))
+    with alone.lock_read():
+        local = {cf._s(k[0]) for k in alone.revisions.keys()}
+        invs = {cf._s(k[0]) for k in alone.inventories.keys()}
+    if outcome in ("refused", "still-missing"):
+        check(rid not in local,
+              "C08/sink-" + outcome + "-write-group-left-the-revision-behind",
+              sorted(local))
+    label = "sink:%s:%s:%dp" % (case["second"], outcome, len(parents))
+    if rid in local:
+        if all(p in invs for p in parents):
+            cf.stacking_invariant("C08", os.path.join(d, "stacked"), graph,
+                                  models, tag="sink")
+        else:
+            # no parent inventory: acceptable only if the revision can be
+            # rebuilt completely from the stacked repository alone
+            try:
+                with alone.lock_read():
+                    got = bz.snapshot_tree(alone.revision_tree(bz.enc(rid)))
+            except (errors.NoSuchRevision, _FNotPresent(), _FNoSuch(),
+                    _NoSuchFile()) as e:
+                check(False, "C08/sink-accepted-revision-without-parent-"
+                      "inventory-and-not-self-sufficient",
+                      {"second": case["second"], "error": repr(e)[:300]})
+            check(got == bz.model_snapshot(models[rid]),
+                  "C08/sink-accepted-revision-reads-wrong-tree", rid)
+        b = _b.Branch.open(os.path.join(d, "stacked"))
+        with b.lock_read():
+            got = bz.snapshot_tree(b.repository.revision_tree(bz.enc(rid)))
+        check(got == bz.model_snapshot(models[rid]),
+              "C08/sink-revision-tree-differs-from-model", rid)
+    if outcome == "refused":
+        return rejected("incomplete resumed stream refused at "
+                        "commit_write_group", label=label)
+    return ok(label)
+
+
+def _NoSuchFile():
+    from dromedary.errors import NoSuchFile
+    return NoSuchFile
+
+
+def _FNotPresent():
+    from bzrformats.errors import RevisionNotPresent
+    return RevisionNotPresent
+
+
+def _FNoSuch():
+    try:
+        from bzrformats.errors import NoSuchRevision
+        return NoSuchRevision
+    except ImportError:
+        from breezy import errors
+        return errors.NoSuchRevision
+
+
 def kinds(tier):
     return [
         Kind("local", run, strategy=stack_case(tier, smart=False),
@@ -370,4 +533,6 @@ def kinds(tier):
         Kind("smart", run, strategy=stack_case(tier, smart=True),
              examples={"quick": 100, "thorough": 4000},
              setup=cf.smart_setup, teardown=cf.smart_teardown),
+        Kind("sink-resume", run_sink, strategy=sink_case(tier),
+             examples={"quick": 120, "thorough": 3000}),
     ]
